@@ -115,7 +115,7 @@ class C04(Prop):
         fss = [r for r in results if r[0] == "fs"]
         opl = [o for o in ops if o[0] not in ("init", "dumpfs", "counters")]
         if len(opl) != len(obs) or len(fss) != 3:
-            return []
+            return self.skip("guard")
         procs, cur = [], []
         for (name, kv), (_, idx, o) in zip(opl, obs):
             if name == "newprocess":
@@ -125,18 +125,18 @@ class C04(Prop):
                 cur.append((name, kv, idx, o))
         procs.append(cur)
         if len(procs) != 3:
-            return []
+            return self.skip("guard")
         p1, p2, p3 = procs
         if per_test_calls(p1).keys() != per_test_calls(p2).keys() or per_test_calls(p2) != per_test_calls(p3):
-            return []
+            return self.skip("guard")
         m1 = [x for x in p1 if x[0] == "match"]
         m2 = [x for x in p2 if x[0] == "match"]
         upd_on = any((n == "setenv" and kv["upd"] == "true" and kv["ci"] == "0") or (n == "newconfig" and kv["upd"] == "1") for n, kv, _, _ in p2)
         if not upd_on or per_test_calls(p1).keys() != per_test_calls(p2).keys() or \
                 any(len(per_test_calls(p1)[t]) != len(per_test_calls(p2)[t]) for t in per_test_calls(p1)):
-            return []
+            return self.skip("guard")
         if not m1 or not all(x[3]["outcome"] == "added" for x in m1):
-            return []
+            return self.skip("guard")
         fails = []
         # per-test positional comparison of values between process 1 and process 2
         v1 = per_test_calls(p1)
@@ -172,7 +172,7 @@ class C04(Prop):
         return fails
 
     def known_signature(self, finding, case, ops, results, failure):
-        return finding["id"] == "K2" and header_collision(ops)
+        return finding["id"] == "K2" and header_collision(ops, failure)
 
     def nontrivial(self, case, ops, results):
         return any(r[0] == "obs" and r[2]["outcome"] == "updated" for r in results)
